@@ -5,6 +5,8 @@ of an awaiter, by an UpdateAwaitResults command, or stored in a process's `await
 actual (and, by `ResMono`, permanent) result of that target.
 -/
 namespace QM.Sys
+set_option linter.unusedSectionVars false
+variable [Cfg]
 
 /-- process `t` has result `r` (on some worker) -/
 def HasRes (s : Sys) (t : Pid) (r : Res) : Prop := ∃ w, (s.wk w).resultOf t = some r
